@@ -44,6 +44,9 @@ EXPLAINED_BASE_DIFFS = {
         "more conservative of the two clean error classes) instead of errOpaque (`generic error parameter`).  Needed so that "
         "replacing thirty closures by one such helper (seeded-harmless/H2-p4) changes no class." % (g, g)
     for f, g in (("groups", "group"), ("messages", "message"), ("welcomes", "welcome"))}
+EXPLAINED_BASE_DIFFS["writeSeqStatus"] = "new fact: 1 = tools/writeseq.py translated every case"
+EXPLAINED_BASE_DIFFS["writeSeq"] = ("new fact (tools/writeseq.py, DESIGN §13.15): the ordered durable write steps of every mdk-core entry point; "
+                                    "the original translators did not extract it")
 
 
 def sh(*a, **kw):
@@ -232,7 +235,7 @@ def main():
             p1.wait()
         orig_tools = os.path.join(od, "tools")
     toolsets = {"orig": orig_tools, "new": HERE}
-    new_id = hashlib.sha1(b"".join(open(os.path.join(HERE, f), "rb").read() for f in ("gen_model.py", "gen_leak.py", "lockshape.py"))).hexdigest()
+    new_id = hashlib.sha1(b"".join(open(os.path.join(HERE, f), "rb").read() for f in ("gen_model.py", "gen_leak.py", "lockshape.py", "writeseq.py", "rsnorm.py") if os.path.exists(os.path.join(HERE, f)))).hexdigest()
     cache_dir = os.path.join(a.work, "cache")
     os.makedirs(cache_dir, exist_ok=True)
 
